@@ -83,6 +83,13 @@ CHECKS = {
         note="Kernel only. NOT decided: that bison's LALR automaton realises the declared precedences (bison trusted; checked natively by the replay probe for all 23x23 operator pairs, which is a test, not a proof); the scanner's spelling->token map; literal conversion in lexer.l (atoi/snprintf/atof); identifier binding (C07); callbacks with type-dependent behaviour (expr_call_end, expr_dot, quantifiers). Stack depth <= 6, n-ary arity <= 6.",
         technique="sliced real callbacks executed on a symbolic fragment stack in CBMC with stack-effect/frame contracts as assume/call/assert harnesses; finite table identities over tables generated from parser.y; native replay through parse_XTA",
     ),
+    "C07": dict(
+        category="proof",
+        text="Kernel of the statement. (1) The REAL struct symbol_data / frame_data and the REAL symbol_t / frame_t members of symbols.cpp (constructor, get_name, get_type, ==, add_symbol, add, get_index_of(name), resolve, get_parent, has_parent, create) on frames with arbitrary content: within one frame the LAST declaration of a name is what the name denotes (add_symbol rebinds exactly that name, every other binding and every earlier symbol unchanged); resolve returns the symbol of this frame if it declares the name WITHOUT consulting the enclosing frames, otherwise exactly the enclosing frame's answer (induction step over the parent chain), and reports failure - never a binding - when the outermost frame does not declare it. (2) Scope pairing on the REAL ExpressionBuilder callbacks over the REAL node factories: expr_forall/exists/sum_begin open exactly one scope nested in the current one that declares exactly the bound variable (binder's name, declared type made constant), inside it the name denotes the bound variable, the matching _end closes exactly that scope, builds the quantifier node over (bound variable, body), and afterwards the name denotes the outer declaration again or is unknown; the PROCESS_VAR branch of expr_dot leaves the temporarily entered template scope on every exit, including the exceptional one.",
+        design_ref="DESIGN.md section 4, C07",
+        note="Kernel only. NOT decided: which frame is on top at each use site across a whole parse (grammar-driven; statement/document builder push/pop sites other than the quantifier callbacks and expr_dot are not under contract), process-qualified names with P's arguments substituted (type_t::rename/subst), declaration-before-use as a property of the grammar's callback order. Trusted: names as identities, std::map as a last-writer table over 4 names, arena frames in part 2 (their behaviour is the contract proved in part 1), induction over the parent chain.",
+        technique="one-level induction step on sliced real code with a ghost answer for the enclosing frame; scope-depth/frame contracts on sliced builder callbacks (assume/call/assert harnesses in CBMC); native replay through parse_XTA / parse_XML_buffer",
+    ),
 }
 
 NOT_APPLICABLE = {
